@@ -139,6 +139,7 @@ Ltac ext_step := first [ apply ext_refl | apply ext_pol | apply ext_whl | apply 
 Lemma removeEntry_ext s id reason now : ext s (fst (removeEntry s id reason now)).
 Proof.
   unfold removeEntry. destruct (get_ent s id) as [e|]; [|apply ext_refl].
+  destruct ((reason =? reasonEXPIRED) && (sexpire e =? 0)); cbn [fst]; [apply ext_refl|].
   destruct ((reason =? reasonEXPIRED) && (now <? sexpire e)); cbn [fst]; [ext_step|].
   set (s1 := upd_ent s id (fun e0 => e_removed e0 true)).
   assert (E1 : ext s s1) by (unfold s1; ext_step).
@@ -183,11 +184,14 @@ Proof.
       eapply ext_trans; [exact E6|]. eapply ext_trans; [apply ext_pol|apply remove_all_ext]. }
   destruct (wcode it =? cREMOVE); [eapply ext_trans; [exact E2|apply removeEntry_ext]|].
   destruct (wcode it =? cUPDATE); [|exact E2].
-  destruct (wresched it && (sexpire e <=? now)); [eapply ext_trans; [exact E2|apply removeEntry_ext]|].
-  set (s3 := upd_ent s2 (wsid it) (fun e0 => e_pw e0 (s64 (spw e + wcost it)))).
-  assert (E3 : ext s s3) by (eapply ext_trans; [exact E2|unfold s3; ext_step]).
-  set (s4 := if wresched it then set_whl s3 (schedule (whl s3) (wsid it) (sexpire e)) else s3).
-  assert (E4 : ext s s4) by (unfold s4; destruct (wresched it); [eapply ext_trans; [exact E3|ext_step]|exact E3]).
+  destruct (wresched it && negb (sexpire e =? 0) && (sexpire e <=? now)); [eapply ext_trans; [exact E2|apply removeEntry_ext]|].
+  set (s2' := if wresched it && (sexpire e =? 0) && scheduled (whl s2) (wsid it)
+              then set_whl s2 (deschedule (whl s2) (wsid it)) else s2).
+  assert (E2' : ext s s2') by (unfold s2'; destruct (wresched it && (sexpire e =? 0) && scheduled (whl s2) (wsid it)); [eapply ext_trans; [exact E2|ext_step]|exact E2]).
+  set (s3 := upd_ent s2' (wsid it) (fun e0 => e_pw e0 (s64 (spw e + wcost it)))).
+  assert (E3 : ext s s3) by (eapply ext_trans; [exact E2'|unfold s3; ext_step]).
+  set (s4 := if wresched it && negb (sexpire e =? 0) then set_whl s3 (schedule (whl s3) (wsid it) (sexpire e)) else s3).
+  assert (E4 : ext s s4) by (unfold s4; destruct (wresched it && negb (sexpire e =? 0)); [eapply ext_trans; [exact E3|ext_step]|exact E3]).
   destruct (negb (tracked s4 (wsid it))); [exact E4|].
   destruct (wcost it =? 0); [exact E4|].
   destruct (pupdate (pol s4) (wsid it) (wcost it) rnd) as [p' ev].
@@ -265,16 +269,16 @@ Lemma get_ent_in s id e : get_ent s id = Some e -> In e (ents s).
 Proof. unfold get_ent. intro H. apply find_some in H. apply H. Qed.
 
 (* the write section *)
-Lemma set_section_Rinv s L k v cost expire h dk nvm :
+Lemma set_section_Rinv s L k v cost expire now h dk nvm :
   Rinv s L ->
-  let '(s', ok, stored) := set_section s k v cost expire h dk nvm in
+  let '(s', ok, stored) := set_section s k v cost expire now h dk nvm in
   Rinv s' (if stored then map_set L k v else L).
 Proof.
   intros (R & F & D). unfold set_section.
   destruct (sclosed s); [exact (conj R (conj F D))|].
   destruct (map_get (smap s) k) as [id|] eqn:Em.
   - destruct (R k id Em) as (e & G & Si & K & V). rewrite G.
-    destruct (updateExpire (sexpire e) expire) as [ex rs].
+    destruct (updateExpire (sexpire e) expire now) as [ex rs].
     set (f := fun e0 => e_weight (e_val (e_expire e0 ex) v) cost).
     assert (Hf : forall e0, sid (f e0) = sid e0) by (intro; reflexivity).
     cbv beta iota. split; [|split; [|exact D]].
@@ -351,8 +355,8 @@ Proof.
     + eapply Rinv_ext; [exact H|apply ext_counts].
   - (* Set *) unfold sset, sset3.
     destruct (_ <? _); cbn [fst]; [exact H|].
-    match goal with |- context [set_section ?a ?b ?c ?d ?e ?f ?g ?h] =>
-      pose proof (set_section_Rinv a L b c d e f g h H) as Q; destruct (set_section a b c d e f g h) as [[s' ok] st] end.
+    match goal with |- context [set_section ?a ?b ?c ?d ?e ?n ?f ?g ?h] =>
+      pose proof (set_section_Rinv a L b c d e n f g h H) as Q; destruct (set_section a b c d e n f g h) as [[s' ok] st] end.
     exact Q.
   - (* Delete *) unfold sdelete. destruct (sclosed s); [exact H|].
     destruct (map_get (smap s) k) as [id|] eqn:Em.
@@ -375,8 +379,8 @@ Proof.
       destruct (sclosed s); [exact H1|]. destruct (negb (_ =? 0)); [exact H1|].
       change (scap (set_counts s (hits s) (misses s + 1))) with (scap s).
       destruct (_ <? _); [exact H1|].
-      match goal with |- context [set_section ?a ?b ?c ?d ?e ?f ?g ?h] =>
-        pose proof (set_section_Rinv a L b c d e f g h H1) as Q; destruct (set_section a b c d e f g h) as [[s' ok] st] end.
+      match goal with |- context [set_section ?a ?b ?c ?d ?e ?n ?f ?g ?h] =>
+        pose proof (set_section_Rinv a L b c d e n f g h H1) as Q; destruct (set_section a b c d e n f g h) as [[s' ok] st] end.
       exact Q.
   - (* Close *) destruct H as (R & F & D). split; [|split; [exact F|constructor]]. intros k id Hm. cbn in Hm. discriminate.
   - (* stale wheel visit *) destruct (map_get (smap s) _); [|cbn [fst]; exact H].
@@ -407,7 +411,7 @@ Proof.
   - cbn [snd]. intro Hv. inversion Hv. subst v. eapply lookup_live_spec; eauto.
   - destruct (sclosed _); [cbn; discriminate|]. destruct (negb _); [cbn; discriminate|].
     destruct (_ <? _); [cbn; discriminate|].
-    destruct (set_section _ _ _ _ _ _ _ _) as [[s' ok] st]. cbn. discriminate.
+    destruct (set_section _ _ _ _ _ _ _ _ _) as [[s' ok] st]. cbn. discriminate.
 Qed.
 
 Lemma in_sort_kv x l : In x (sort_kv l) -> In x l.
@@ -480,6 +484,7 @@ Lemma stale_removal_harmless s id reason now e :
   smap (fst (removeEntry s id reason now)) = smap s.
 Proof.
   intros G Hne. unfold removeEntry. rewrite G.
+  destruct ((reason =? reasonEXPIRED) && (sexpire e =? 0)); [reflexivity|].
   destruct ((reason =? reasonEXPIRED) && (now <? sexpire e)); [reflexivity|].
   set (s1 := upd_ent s id (fun e0 => e_removed e0 true)).
   set (s2 := if tracked s1 id then set_pol s1 (premove_id (pol s1) id) else s1).
